@@ -403,3 +403,43 @@ func Harness_C06_RemoveRealmAttachStall() {
 	vBystanderServed(r, other)
 	vCover("remove-realm-attach-stall-done")
 }
+
+// The timer goroutine of a router-timed call has seen its deadline and is
+// descheduled before it hands its cancel action to the dealer; meanwhile the
+// router is closed (or the realm removed). Close returns, nothing panics.
+func Harness_C06_CloseWhileTimerFires() {
+	r := vNewRouter(&Config{RealmConfigs: []*RealmConfig{{URI: "realm1", AnonymousAuth: true}, {URI: "realm2", AnonymousAuth: true}}})
+	a := vAttach(r, "realm1", nil, 64)
+	b := vAttach(r, "realm1", nil, 64)
+	other := vAttach(r, "realm2", nil, 64)
+	vAssert("attached", a != nil && b != nil && other != nil)
+	b.send(&wamp.Register{Request: 1, Procedure: "b.proc"})
+	b.drain()
+	a.send(&wamp.Call{Request: 3, Procedure: "b.proc", Options: wamp.Dict{"timeout": int64(100)}})
+	a.drain()
+	b.drain()
+	k := vChoice("stall-after", 3)
+	vStallFunc("syncCall$1", k)
+	vAdvance(150 * 1000000) // the call's deadline passes
+	vQuiesce()
+	removeOnly := vBool("remove-realm-only")
+	t0 := vNow()
+	closed := make(chan struct{})
+	go func() {
+		if removeOnly {
+			r.RemoveRealm("realm1")
+		} else {
+			r.Close()
+		}
+		close(closed)
+	}()
+	vQuiesce()
+	vStallRelease()
+	<-closed
+	vAssert("close-returns-promptly", vNow()-t0 < 1500*1000000)
+	vQuiesce()
+	if removeOnly {
+		vBystanderServed(r, other)
+	}
+	vCover("close-while-timer-fires-done")
+}
